@@ -183,6 +183,12 @@ def cov_traces(ctx, count):
         rn = lambda *s: torch.randn(*s, dtype=torch.float64, generator=g)
         A = rn(n, n) / math.sqrt(n)
         B, C, D, c1, c2 = rn(n, m), rn(p, n), rn(p, m), rn(n), rn(p)
+        # "any c1, c2": states far from the origin with a small spread (map coordinates): only the PF is run there
+        # (symmetric PSD covariance); a covariance formed as E[x x^T] - m m^T cancels catastrophically
+        far = it % 6 == 5
+        if far:
+            eP, eQ = rng.uniform(-3, -1), rng.uniform(-3, -1)
+            c1 = c1 * 1e7
         Cn = rn(p, n)
         P, Q, R = rand_spd(torch, g, n, 10 ** eP), rand_spd(torch, g, n, 10 ** eQ), rand_spd(torch, g, p, 10 ** eR)
         sx = math.sqrt(10 ** eP)
@@ -217,6 +223,8 @@ def cov_traces(ctx, count):
             ref = (xr, Pr, xs)
         ks = sorted({0, 1, max(0, 3 - n), 4}) + ([1 - n] if (linear and n >= 2) else [])
         calls = [("EKF", None)] + [("UKF", k) for k in ks] + [("PF", None)]
+        if far:
+            calls = [("PF", None)]
         ev = []
         for name, k in calls:
             e = {"act": "cov", "filter": name, "k": -99 if k is None else k, "judge_cov": k is None or k >= 0,
